@@ -427,12 +427,15 @@ pub fn link_cores(cores: Vec<CoreUnit>) -> Result<LinkOutput, CompilationError> 
             .values()
             .flat_map(|ext| hir::go_package_spellings(&ext.package_path)),
     );
-    let (mono, monoenv, unbounded) = mono::mono_with_diagnostics(genv.clone(), linked.clone());
+    let (mono, monoenv, unbounded, bad_operands) = mono::mono_with_all_diagnostics(genv.clone(), linked.clone());
     if !unbounded.is_empty() {
         return Err(compile_error(format!(
             "cannot specialise {}: it is instantiated at ever larger types (polymorphic recursion is not supported)",
             unbounded.join(", ")
         )));
+    }
+    if !bad_operands.is_empty() {
+        return Err(compile_error(bad_operands.join("; ")));
     }
     let (lifted, liftenv) = lift::lambda_lift(monoenv.clone(), &gensym, mono.clone());
     let (anf, anfenv) = crate::anf::anf_file(liftenv.clone(), &gensym, lifted.clone());
